@@ -59,6 +59,8 @@ var vlScripts = []vlScript{
 	{files: map[string]string{"a.p": "use(\"b.ppl\")\nadd_key(after, 2)\n", "b.ppl": "set_measurement(\"from b\")\nset_tag(who, \"b\")\n"}, script: "a.p", ok: true},
 	{files: map[string]string{"a.p": "use(\"b.p\")\n", "b.p": "add_key(from_b, 1)\n", "zz.p": "add_key(y, = )\n"}, script: "a.p", ok: true},
 	{files: map[string]string{"a.p": "l = [1]\ny = l[5]\n"}, script: "a.p", ok: false},
+	{files: map[string]string{"a.p": "add_key(x, 1)\nnosuch(1)\n"}, script: "a.p", ok: false}, // load (check) error
+	{files: map[string]string{"svc.access.ppl": "set_tag(t9, \"dotted\")\n"}, script: "svc.access.ppl", ok: true},
 }
 
 // vlRender: the reference line-protocol text of a point (InfluxDB line protocol v1: escaped
@@ -151,6 +153,7 @@ func VerifCliFormats() {
 		verifnd.Reach("error-case")
 		verifnd.Assert(len(rendered) == 0, "error-instead-of-output")
 		verifnd.Assert(len(logger.errs) > 0, "error-is-reported")
+		vcSameLoadError(sc.files, sc.script, logger)
 		return
 	}
 	// what the library API yields for the same script and the point the input describes
